@@ -33,7 +33,9 @@ EXPLANATION = (
     ' '
     'R-C15.11 AppSignature.is_empty() depends on the model signatures only.'
     ' '
-    'R-C15.12 the evolve command queues the purge after every app task.')
+    'R-C15.12 the evolve command queues the purge after every app task.'
+    ' '
+    'R-C15.13 model field defaults in models.py are callables or constants, not call results.')
 NOT_DECIDED = (
     'Non-interference with other apps\' tables and rows for every project '
     'layout (prefix table names, shared m2m tables).')
@@ -659,7 +661,39 @@ def r12_purge_queued_after_app_tasks(ctx):
         ctx.ok(f, 'the purge is queued after every app task')
 
 
+def r13_model_defaults_not_evaluated_at_import(ctx):
+    """`Version.when` orders the stored signatures: the purge (like every
+    run) inserts a new Version and relies on its default timestamp to make
+    it the current one.  A model field default must be the callable
+    (`default=now`), not its result (`default=now()`), which is evaluated
+    once at import: a long-running process then saves versions that sort
+    *before* the ones other processes saved meanwhile, and the signature
+    without the purged app never becomes current."""
+    ctx.rule('R-C15.13')
+    p = ctx.program
+    m = p.module('models')
+    n = 0
+    for c in ast.walk(m.tree):
+        if isinstance(c, ast.Call) and (call_name(c) or '').endswith('Field'):
+            for k in c.keywords:
+                if k.arg == 'default':
+                    n += 1
+                    if isinstance(k.value, ast.Call):
+                        ctx.finding((m.name, '<module>'), k.value,
+                                    'models.py: %s(default=%s) evaluates the '
+                                    'default once, when the module is '
+                                    'imported, instead of per row' % (
+                                        call_name(c),
+                                        ' '.join(unparse(k.value).split())),
+                                    key='default-evaluated-at-import')
+                    else:
+                        ctx.ok((m.name, '<module>'), 'default is a constant '
+                               'or a callable', k.value)
+    ctx.floor('field defaults in django_evolution.models', n, 1)
+
+
 def run(ctx):
+    r13_model_defaults_not_evaluated_at_import(ctx)
     r12_purge_queued_after_app_tasks(ctx)
     r11_app_entry_empty_means_no_models(ctx)
     r10_deletions_lowered_from_one_snapshot(ctx)
